@@ -221,7 +221,7 @@ pub fn run(ctx: &Ctx) -> i32 {
         tier,
         seed: ctx.seed,
         level: "fault_enumeration",
-        rule: "E1: simulated shutdown (virtual time) of a network with a seeded in-flight mix (RPCs in both directions with fast/slow/never-finishing handlers, handlers holding an upgraded NetworkRef, dials to black-holed/reachable/wrong-identity addresses, an inbound handshake whose acknowledgement is withheld, background dials, racing API calls, repeated shutdown() calls), at an instant swept in 100 us / 1 ms steps, by shutdown() or by dropping the last handle; oracle: completes within shutdown_idle_timeout + 1 s, then closed/no peers/subscribe errs/weak refs dead/0 live service clones, subscriber gets its LostPeer events then end-of-stream, every pending call returns, calls issued afterwards fail promptly, remote peers drop the network, no panic. fault = the instant at which the runtime is torn down / the network is shut down. E2: sub-process trials with 4-6 real Networks on UDP loopback, a 4-worker runtime, continuous explicit dials, background dials (incl. a black-holed High peer), disconnects and RPCs; the tear-down delay walks a 0-50 ms grid in 250 us steps in five modes (drop runtime with handles alive, drop handles first, drop while shutdown() is in progress, after shutdown() completed, shutdown + immediate re-bind of the address); oracle: no panic line on stderr, exit 0, drop(runtime) returns, after shutdown(): closed, no peers, subscribe errs, weak refs dead, address re-bindable; a trial that does not finish in 40 s is a violation only if a CPU-accumulating thread with connection-manager frames is found (gdb), else inconclusive".into(),
+        rule: "E1: simulated shutdown (virtual time) of a network with a seeded in-flight mix (RPCs in both directions with fast/slow/never-finishing handlers, handlers holding an upgraded NetworkRef, dials to black-holed/reachable/wrong-identity addresses, an inbound handshake whose acknowledgement is withheld, background dials, racing API calls, repeated shutdown() calls), at an instant swept in 100 us / 1 ms steps, by shutdown() or by dropping the last handle; oracle: completes within shutdown_idle_timeout + 1 s, then closed/no peers/subscribe errs/weak refs dead/0 live service clones, subscriber gets its LostPeer events then end-of-stream, every pending call returns, calls issued afterwards fail promptly, remote peers drop the network, no panic. fault = the instant at which the runtime is torn down / the network is shut down. E2: sub-process trials with 4-6 real Networks on UDP loopback, a 4-worker runtime, continuous explicit dials, background dials (incl. a black-holed High peer), disconnects and RPCs; the tear-down delay walks a 0-50 ms grid in 250 us steps in five modes (drop runtime with handles alive, drop handles first, drop while shutdown() is in progress, after shutdown() completed, shutdown + immediate re-bind of the address); oracle: no panic line on stderr, exit 0, drop(runtime) returns, after shutdown(): closed, no peers, subscribe errs, weak refs dead, address re-bindable; a trial that does not finish in 40 s is a violation only if a CPU-accumulating thread with connection-manager frames is found (gdb), else inconclusive Additions: 35% of the simulated shutdown() calls come with a burst of 100-400 connect() calls polled once in the same instant (more than the manager's mailbox holds); E2: two thirds of the trials start the delay clock at the first answered RPC, half of the shutdown trials keep one RPC per network in flight whose handler is inside a non-yielding section of 20-150 ms, and at the return of shutdown() the live service clones and the handlers of that network that have neither finished nor been dropped must both be 0.".into(),
         assumptions: vec!["tear-down instants are sampled on a time grid and depend on OS scheduling".into()],
         summary,
         extra: Default::default(),
